@@ -8,6 +8,7 @@ Theorems about `Model/Tacd.lean`. (`ext_bytes_exact` is composed elsewhere from 
 import AcmedVerif.Model.Tacd
 import AcmedVerif.Lemmas.Tacd
 import AcmedVerif.Lemmas.Idna
+import AcmedVerif.Spec.C16
 
 namespace AcmedVerif.Props.C16
 open AcmedVerif.Idna AcmedVerif.Tacd
@@ -204,5 +205,45 @@ theorem split_ext_exact (s : List Char) :
 /-- The text `acmed` renders for tls-alpn-01 splits as intended (prefix of a real value). -/
 example : splitExt "1.3.6.1.5.5.7.1.31=critical,DER:04:20:ab".toList =
     .ok "1.3.6.1.5.5.7.1.31".toList "critical,DER:04:20:ab".toList := by decide +kernel
+
+/-! ## The judge on sample observations -/
+
+def sampleDigest : List UInt8 := List.replicate 32 0xAB
+
+def goodCert : Spec.C16.CertObs :=
+  { dnsSans := ["xn--bcher-kva.example".toList], ipSanCount := 0, acmeExtPresent := true,
+    acmeCritical := true, acmeValue := 0x04 :: 0x20 :: sampleDigest, selfSigned := true,
+    notBeforeOk := true, notAfterOk := true }
+
+def rawDomain : List Char := ['B', Char.ofNat 0xFC, 'c', 'h', 'e', 'r'] ++ ".Example\n".toList
+
+/-- The model's constant and the judge's independent constant are the same protocol name, and it
+is what RFC 8737 section 6.2 registers. -/
+example : acmeProto = Spec.C16.acme ∧ acmeProto = "acme-tls/1".toList.map (fun c => UInt8.ofNat c.toNat) := by
+  refine ⟨by decide +kernel, by decide +kernel⟩
+
+/-- Accepted: the A-label SAN, critical extension with `04 20 ‖ digest`, acme-tls/1 negotiated;
+a client offering only `h2` that was refused; a client without ALPN (no demand).
+Rejected: the raw (non-IDNA) domain as SAN, a non-critical extension, a missing length prefix in
+the extension value, no negotiated protocol, an extra IP SAN, a served `h2`-only client. -/
+example :
+    let alabel := "xn--bcher-kva.example".toList
+    let ok : Spec.C16.Obs := { handshakeOk := true, negotiated := some Spec.C16.acme, cert := some goodCert }
+    Spec.C16.holds rawDomain alabel sampleDigest [[104, 50], Spec.C16.acme] ok = true ∧
+    Spec.C16.holds rawDomain alabel sampleDigest [[104, 50]]
+      { handshakeOk := false, negotiated := none, cert := none } = true ∧
+    Spec.C16.holds rawDomain alabel sampleDigest [] ok = true ∧
+    Spec.C16.holds rawDomain alabel sampleDigest [Spec.C16.acme]
+      { ok with cert := some { goodCert with dnsSans := [rawDomain] } } = false ∧
+    Spec.C16.holds rawDomain alabel sampleDigest [Spec.C16.acme]
+      { ok with cert := some { goodCert with acmeCritical := false } } = false ∧
+    Spec.C16.holds rawDomain alabel sampleDigest [Spec.C16.acme]
+      { ok with cert := some { goodCert with acmeValue := sampleDigest } } = false ∧
+    Spec.C16.holds rawDomain alabel sampleDigest [Spec.C16.acme] { ok with negotiated := none } = false ∧
+    Spec.C16.holds rawDomain alabel sampleDigest [Spec.C16.acme]
+      { ok with cert := some { goodCert with ipSanCount := 1 } } = false ∧
+    Spec.C16.holds rawDomain alabel sampleDigest [[104, 50]] ok = false := by
+  refine ⟨by decide +kernel, by decide +kernel, by decide +kernel, by decide +kernel,
+    by decide +kernel, by decide +kernel, by decide +kernel, by decide +kernel, by decide +kernel⟩
 
 end AcmedVerif.Props.C16
